@@ -41,7 +41,11 @@ SPEC = {
         "the Lean machine's state is the reported configuration + temporal configuration and recordsz of every internal "
         "record + batch dims; record contents are C13's subject. Equality of OUTPUTS from a cleared state is checked on "
         "the real code only (setter-built vs freshly constructed instance, exact comparison)",
-        "dt / delay / duration on a dyadic grid (exact float quotients; see C13 'partial (float)')",
+        "model streams: dt / delay / duration on a dyadic grid (exact float quotients; see C13 'partial (float)'); "
+        "non-representable ratios (dt 0.1/0.2/0.3/0.7, spans k*dt) are checked relationally on the real code only "
+        "(setter-built vs fresh), reported as a separate stream",
+        "write mode (`inplace`) is compared through its observable effects on the real code (storage reuse, autograd graph); "
+        "the Lean machine only carries the reported flag",
         "`clear(keep_adaptations=False)` is used before comparing outputs (adaptive neurons keep adaptations across a "
         "plain clear() by design)",
         "RecordReducer has no `inclusive` setter: inclusive varies over constructions only; reducer `duration` setter "
@@ -66,8 +70,16 @@ def q(x) -> str:
 
 
 def fq(tok: str) -> float:
+    """`num/den` (exact grid) or a Python float literal such as `2.2` (non-representable stream)"""
+    if "/" not in tok:
+        return float(tok)
     a, d = tok.split("/")
     return int(a) / int(d)
+
+
+def ft(x) -> str:
+    """token for a time value of the non-representable stream: the float literal itself"""
+    return repr(float(x))
 
 
 def dts(dtype) -> str:
@@ -355,23 +367,39 @@ class Real:
             elif self.kind == "neu":
                 outs.append((torch.rand(c["batch"], self.P, generator=g) * 40.0).to(fdt))
             elif self.kind == "red":
-                outs.append((torch.rand(2, 3, generator=g) < 0.5).to(fdt))
+                # grad-requiring observations: the write mode decides whether the reducer state keeps the graph
+                outs.append((torch.rand(2, 3, generator=g) < 0.5).to(fdt).requires_grad_(True))
             else:
                 shape = (c["batch"], self.P, 2, 2) if self.cls == "Conv2D" else (c["batch"], self.P)
                 outs.append((torch.rand(*shape, generator=g) < 0.4).to(fdt))
         return outs
 
-    def _forward(self, m, x):
+    def _records(self, m):
+        tgt = m.synapse if self.kind == "con" else m
+        return [v for _, v in records_of(tgt)]
+
+    def _forward(self, m, x, mode=None):
+        """one step; values as a flat float64 tensor.  `mode` (a list) collects the OBSERVABLE write mode of the
+        step: whether each internal record's storage tensor was reused (`data_ptr` unchanged = written in place) and,
+        for reducers fed grad-requiring observations, whether the state handed out by peek() / the storage carries a
+        graph (out-of-place writes keep it, in-place writes are done under no_grad)"""
+        before = [None if r.value is None else r.value.data_ptr() for r in self._records(m)] if mode is not None else None
         if self.kind == "red":
             m(x)
             pk, dp = m.peek(), m.dump()
-            return torch.cat([pk.reshape(-1).to(torch.float64), dp.reshape(-1).to(torch.float64)])
-        out = m(x)
-        if self.kind == "syn":
-            return out.to(torch.float64)
-        if self.kind == "neu":
-            return torch.cat([out.reshape(-1).to(torch.float64), m.voltage.reshape(-1).to(torch.float64)])
-        return out.to(torch.float64)
+            out = torch.cat([pk.detach().reshape(-1).to(torch.float64), dp.detach().reshape(-1).to(torch.float64)])
+            if mode is not None:
+                v = m.data_.value
+                mode.append(("peek.requires_grad", pk.requires_grad, "storage.grad_fn is None", v.grad_fn is None))
+        else:
+            out = m(x)
+            if self.kind == "neu":
+                out = torch.cat([out.reshape(-1).to(torch.float64), m.voltage.reshape(-1).to(torch.float64)])
+            out = out.detach().to(torch.float64)
+        if mode is not None:
+            after = [None if r.value is None else r.value.data_ptr() for r in self._records(m)]
+            mode.append(("storage reused", tuple(b0 is not None and b0 == a0 for b0, a0 in zip(before, after))))
+        return out
 
     def _run(self, seed, T):
         a = self.a
@@ -392,16 +420,20 @@ class Real:
         bm.clear(keep_adaptations=False)
         xs = self._inputs(seed, T)
         for t, x in enumerate(xs):
+            ma, mb = [], []
             try:
-                oa = self._forward(a, x)
+                oa = self._forward(a, x, ma)
             except Exception as e:
                 oa = f"{type(e).__name__}: {str(e)[:80]}"
-            ob = self._forward(bm, x)
+            ob = self._forward(bm, x, mb)
             if isinstance(oa, str):
                 rel.append(f"output step {t}: setter-built raised {oa}")
                 break
             if oa.shape != ob.shape or not torch.equal(torch.nan_to_num(oa, nan=12345.0), torch.nan_to_num(ob, nan=12345.0)):
                 rel.append(f"output step {t}: setter-built {oa.reshape(-1)[:6].tolist()} fresh {ob.reshape(-1)[:6].tolist()}")
+                break
+            if t >= 1 and ma != mb:        # (step 0 initialises reducer storage on both sides)
+                rel.append(f"write mode at step {t} (inplace={self.cfg.get('inplace')}): setter-built {ma} fresh {mb}")
                 break
         ra, rb = report(self.kind, a), report(self.kind, bm)
         if ra != rb:
@@ -427,6 +459,17 @@ def compare_case(case, real, resp):
             return (i, "model", dm, rm)
         if rs != ds:
             return (i, "model", ds, rs)
+    return None
+
+
+def compare_relational(case, real):
+    """real code only: first relational difference or raised assignment"""
+    for i, r in enumerate(real):
+        rel = r[2] if len(r) > 2 else []
+        if rel:
+            return (i, "spec", "setter-built instance == freshly constructed instance", "; ".join(rel))
+        if r[0].startswith(("err", "harness-exception")) and not case[i].startswith(("syn", "con", "red", "neu")):
+            return (i, "spec", "ok (a valid assignment / step)", r[0])
     return None
 
 
@@ -461,7 +504,7 @@ DURS = [Fraction(1, 2), Fraction(1), Fraction(3, 2), Fraction(2), Fraction(3), F
 BATCH = [1, 2, 3]
 
 
-def head_line(kind, cls, c, P, syn=None, hasdelay=False):
+def head_line(kind, cls, c, P, syn=None, hasdelay=False, q=q):
     if kind == "syn":
         return (f"syn {syn_k(cls)} {q(c['dt'])} {q(c['delay'])} {c['batch']} {b(c['inplace'])} {c['dtype']} {P} "
                 f"cls={cls}")
@@ -542,10 +585,10 @@ def grid_cases(rng, thorough):
         if kind == "con" and not thorough and syn not in ("DeltaCurrent", "DoubleExponentialCurrent"):
             continue
         P = 3
-        axes = {"syn": [("dt", DTS), ("delay", DELAYS), ("batch", BATCH)],
-                "con": [("dt", DTS), ("delay", DELAYS), ("batch", BATCH)],
+        axes = {"syn": [("dt", DTS), ("delay", DELAYS), ("batch", BATCH), ("inplace", [False, True])],
+                "con": [("dt", DTS), ("delay", DELAYS), ("batch", BATCH), ("inplace", [False, True])],
                 "neu": [("dt", DTS), ("batch", BATCH)],
-                "red": [("dt", DTS), ("duration", DURS)]}[kind]
+                "red": [("dt", DTS), ("duration", DURS), ("inplace", [False, True])]}[kind]
         for attr, vals in axes:
             for v0 in vals:
                 for v1 in vals:
@@ -560,8 +603,43 @@ def grid_cases(rng, thorough):
                     if rng.random() < 0.5:
                         lines += [f"step {rng.randrange(1000)}" for _ in range(rng.randint(1, 3))]
                     name = {"batch": "batchsz"}.get(attr, attr)
-                    lines += [f"set {name} {q(v1) if attr != 'batch' else v1}", "report", f"run {rng.randrange(10**6)} 6"]
+                    val = b(v1) if attr == "inplace" else (v1 if attr == "batch" else q(v1))
+                    lines += [f"set {name} {val}", "report", f"run {rng.randrange(10**6)} 6"]
                     cases.append(lines)
+    return cases
+
+
+FLOAT_DTS = [0.1, 0.2, 0.3, 0.7]
+
+
+def float_cases(rng, thorough):
+    """NON-REPRESENTABLE grid (relational only, no Lean machine: the comparison setter-built vs freshly constructed
+    needs no exact arithmetic): dt in {0.1, 0.2, 0.3, 0.7} reached by assignment from another step time, with
+    delay / duration = k * dt written as the short decimal (2.2, 0.9, 3.5, …), k = 1..12 (thorough: 1..30); plus the
+    delay / duration itself reached by assignment"""
+    cases = []
+    fams = [("syn", c, None) for c in SYN] + [("red", c, None) for c in RED]
+    conns = CONN if thorough else ["LinearDense", "LinearDirect"]
+    syns = list(SYN) if thorough else ["DeltaCurrent", "SingleExponentialCurrent"]
+    fams += [("con", c, s_) for c in conns for s_ in syns]
+    for kind, cls, syn in fams:
+        span = "duration" if kind == "red" else "delay"
+        for dt1 in FLOAT_DTS:
+            for k in range(1, 13 if not thorough else 31):
+                d = round(k * dt1, 10)
+                dt0 = rng.choice([x for x in FLOAT_DTS + [1.0, 0.5] if x != dt1])
+                c = rand_cfg(rng, kind)
+                c["dt"], c[span] = dt0, d
+                lines = [head_line(kind, cls, c, 3, syn, True, q=ft)]
+                if rng.random() < 0.3:
+                    lines.append(f"step {rng.randrange(1000)}")
+                if rng.random() < 0.35:
+                    # reach the span by assignment too (from another multiple)
+                    d0 = round(rng.randint(1, 12) * dt0, 10)
+                    lines[0] = head_line(kind, cls, dict(c, **{span: d0}), 3, syn, True, q=ft)
+                    lines.append(f"set {span} {ft(d)}")
+                lines += [f"set dt {ft(dt1)}", "report", f"run {rng.randrange(10**6)} 3"]
+                cases.append(lines)
     return cases
 
 
@@ -655,6 +733,35 @@ def explore(ctx) -> Exploration:
             case={"ops": small, "index": d2[0], "expected": d2[2], "observed": d2[3],
                   "disagreement": ("setter-built vs freshly constructed instance (real code)" if d2[1] == "spec"
                                    else "real code vs model")}))
+    # non-representable stream: real code only (setter-built vs fresh), no driver
+    flt = float_cases(rng, thorough)
+    nflt_found = 0
+    for case in flt:
+        real = seqcheck.exec_real(Real, case)
+        ex.evaluations += len(case)
+        ex.traces_validated += 1
+        ex.count("class_nonrepresentable", dict(t.split("=", 1) for t in case[0].split() if t.startswith("cls="))["cls"])
+        if any(l.startswith("set") and x[0] == "ok" for l, x in zip(case, real)):
+            ex.nontriv(tuple(case))
+        d = compare_relational(case, real)
+        if d is None:
+            continue
+        if "harness-exception" in str(d):
+            raise RuntimeError(f"harness failure on {case[:d[0] + 1]}: {d}")
+        nflt_found += 1
+        if nflt_found > 4:
+            continue
+        small = list(case[:d[0] + 1])
+        for i in range(len(small) - 2, 0, -1):          # greedy deletion keeping the relational difference
+            cand = small[:i] + small[i + 1:]
+            if compare_relational(cand, seqcheck.exec_real(Real, cand)) is not None:
+                small = cand
+        d2 = compare_relational(small, seqcheck.exec_real(Real, small)) or d
+        ex.findings.append(Finding(
+            kind="spec", key=key_of(small, d2) + ":nonrepresentable",
+            what=f"op `{small[d2[0]]}`: expected `{d2[2]}` observed `{d2[3]}`",
+            case={"ops": small, "index": d2[0], "expected": d2[2], "observed": d2[3],
+                  "disagreement": "setter-built vs freshly constructed instance (real code), non-representable dt/duration"}))
     for k, v in sorted(STATS.items()):
         ex.count("real_side", k, v)
     ex.rule = (
@@ -665,9 +772,20 @@ def explore(ctx) -> Exploration:
         "invalid arguments); after every assignment the setter-built instance is compared with a freshly constructed one "
         "(getters, dt/duration/inclusive/recordsz/batch dim of every internal RecordTensor, batch dims of ShapedTensors, dtype) "
         "and with both Lean machines; every case ends with clear() on both instances and an exact comparison of outputs on a "
-        "seeded input sequence; a case is non-trivial when at least one assignment succeeded")
+        "seeded input sequence — values AND observable write mode (storage tensor reused or not per record, and for reducers fed "
+        "grad-requiring observations whether peek()/storage keep the graph); + a NON-REPRESENTABLE relational stream (dt in "
+        "{0.1,0.2,0.3,0.7} by assignment, delay/duration = k*dt as short decimals) on the real code only; a case is non-trivial "
+        "when at least one assignment succeeded")
     ex.samples = [grid[0], grid[len(grid) // 2], rnd[0], rnd[-1]]
-    ex.extra["streams"] = {"corpus": ncorpus, "attribute_pair_grid": len(grid), "random_sequences": len(rnd)}
+    ex.extra["streams"] = {"corpus": ncorpus, "attribute_pair_grid": len(grid), "random_sequences": len(rnd),
+                           "nonrepresentable_relational_only": len(flt)}
+    ex.extra["nonrepresentable_stream"] = {
+        "cases": len(flt), "relational_differences": nflt_found,
+        "what": "dt in {0.1,0.2,0.3,0.7} reached by assignment, delay/duration = k*dt as short decimals (k=1..%d); "
+                "setter-built vs freshly constructed instance compared on getters, every record's dt/duration/inclusive/"
+                "recordsz/batch dim, outputs and write mode; not sent to the Lean driver (its arithmetic is exact)"
+                % (12 if not thorough else 30),
+        "sample": flt[len(flt) // 2] if flt else []}
     return ex
 
 
